@@ -7,11 +7,19 @@ _PLANNERS = ['RRT', 'RRT-intermediate', 'SST', 'EST', 'KPIECE1', 'PDST', 'Syclop
 _SYSTEMS = ['point', 'car', 'dint']
 
 
-def _floors(per_planner, per_combo, controls, steps, exact, approx, creeping):
+def _floors(per_planner, per_combo, controls, steps, exact, approx, creeping, cont):
     f = {'c02_controls_replayed': controls, 'c02_steps_replayed': steps, 'c02_multistep_controls': controls // 10,
          'c02_dint_controls_where_long_step_differs': controls // 100, 'c02_start_checks': per_planner * 8,
          'c02_goal_checks_exact': exact * 8, 'c02_goal_checks_approx': approx * 4,
          'c02_cases_creeping_system': creeping, 'c02_controls_with_steps_below_float_eps': creeping * 50}
+    # continued solve() histories: cont = floor on continued calls
+    f.update({'c02_continued_solve_calls': cont, 'c02_continued_solve_calls_after_exact_solution': cont * 4 // 9,
+              'c02_continued_solve_calls_tiny_budget': cont // 2, 'c02_clearSolutionPaths_between_calls': cont // 2,
+              'c02_paths_registered_after_exact_solution_approx': cont // 9,
+              'c02_paths_registered_after_exact_solution_exact': cont * 5 // 18})
+    for p in _PLANNERS:
+        if p != 'PDST':   # PDST returns at once when it already holds an exact solution
+            f['c02_paths_registered_after_exact_solution:' + p] = cont // 36
     for p in _PLANNERS:
         f['c02_replayed:' + p] = per_planner
         f['c02_solutions_exact:' + p] = exact
@@ -26,14 +34,16 @@ reg('C02', engine='h_control',
          'one generated system (point / car / Euler double integrator; control bounds, step size, min/max duration, '
          'directed-sampler k drawn; 3% "creeping" systems whose propagation steps are closer than float epsilon) in one '
          'generated obstacle world with drawn start(s)/goal/threshold, planner '
-         'parameters and library seed, run under an evaluation-count termination condition (1 of 5 cases as two '
-         'consecutive solve() calls); every path registered in the problem definition is replayed control by control '
+         'parameters and library seed, run under an evaluation-count termination condition; 1 of 3 cases drives the same planner '
+         'instance through 2-3 consecutive solve() calls whatever the earlier calls returned (drawn budgets, half of the '
+         'later ones 10-100 evaluations, clearSolutionPaths() in half of the gaps); every path registered by any call is '
+         'judged with the status of the call that registered it and replayed control by control '
          'from its recorded states; non-trivial = a registered path with >= 2 controls was replayed; distinct = '
          'distinct hash of (planner, system, world, start/goal, parameters, seed)',
     floors={'quick': _floors(per_planner=200, per_combo=60, controls=120000, steps=400000, exact=80, approx=35,
-                             creeping=50),
+                             creeping=50, cont=900),
             'thorough': _floors(per_planner=800, per_combo=250, controls=450000, steps=1400000, exact=350, approx=100,
-                                creeping=200)},
+                                creeping=200, cont=3000)},
     level_text='every solution path that any of the eight control-planner variants registered on the generated '
                '(system, world, seed) tuples was re-executed with an independent copy of the propagator: durations are '
                'whole step counts, controls lie in bounds, every replayed step is valid, replayed states equal the '
